@@ -45,7 +45,7 @@ CHILD_WAITS = {'steps': [S([['gate', 'cg']], ['value', 2], True)]}
 SHAPES = {
     'y1': {'steps': [S([['yield']], ['value', 1], True)]},
     'y3': {'steps': [S([['yield'], ['out', 'x', 1], ['yield'], ['soon', 'ok', 'c1'], ['yield']], ['continue', 1, [], {}], True), S([['yield']], ['value', 2], True)]},
-    'sync': {'steps': [S([['soon', 'ok', 'c2']], ['continue', 1, [1], {}]), S([['out', 'y', 2]], ['value', 3])]},
+    'sync': {'steps': [S([['soon', 'ok', 'c2'], ['soon', 'args', 'c3']], ['continue', 1, [1], {}]), S([['out', 'y', 2]], ['value', 3])]},
     'gate': {'steps': [S([['gate', 'g1'], ['yield']], ['wait', 1, None, None], True), S([], ['value', 4])]},
     # application-defined WAITING state that runs process code in execute(); callbacks that are async callable objects
     'cwait': {'steps': [S([['soon', 'async_obj', 'ao1'], ['yield']], ['wait', 1, None, None], True), S([['soon', 'async_obj', 'ao2']], ['value', 6])], 'sampling_waiting': True},
@@ -415,6 +415,8 @@ def execute(case):
                 if site == 'exit' and e.get('outcome') == 'raised' and has_orphan and str(pid).endswith('/90'):
                     continue  # the orphan's step being finalised by the garbage collector, in whatever context that is
                 sites[site] = sites.get(site, 0) + 1
+                if e.get('args_ok') is False:
+                    v('callback-arguments', f"pid {pid}: the callback {e.get('tag')} scheduled with call_soon(cb, 1, 'a', k=2, flag=None) was called with {e.get('got')}")
                 if not e['cur']:
                     v('current-in-user-code', f"pid {pid}: {site} of {e.get('step', e.get('tag'))}: Process.current() is not the process")
         for pid, hooks in w.hooks.items():
